@@ -278,6 +278,12 @@ def cases(tier):
             if tier == "quick" and kind == "device" and vi % 3 != 0:
                 continue
             cs.append(Case("read-%s-%s-%s" % (bname, vname, kind), h_read, {"vi": vi, "kind": kind}, width=128))
+    # the same read twice in one process against independent units / images: nothing read once may be
+    # remembered (values of 1..3 bytes keep the square of the path count small)
+    small = [vi for vi, (bname, vname, cls) in enumerate(vals) if len(cls.locations) <= 3]
+    for vi in small[::(9 if tier == "quick" else 3)]:
+        bname, vname, cls = vals[vi]
+        cs.append(Case("read-twice-%s-%s" % (bname, vname), h_read, {"vi": vi, "kind": "gear"}, width=128, repeat=2))
     for bname, (mod, number, declared_last, has_lock, has_latch) in MM.BANK_HEADERS.items():
         bobj = getattr(importlib.import_module(mod), bname)
         bounds = set()
